@@ -555,11 +555,20 @@ pub fn explore<Sc: Scenario>(sc: &Sc, max_bound: usize, horizon: usize, budget_s
                 st.states = all_fp.len() as u64;
                 return st;
             }
-            let r = match run_schedule(sc, &prefix, horizon) {
-                Ok(r) => r,
-                Err(e) => {
-                    eprintln!("MACHINERY FAILURE: {} schedule {:?}: {e}", sc.name(), prefix);
-                    std::process::exit(2);
+            // (a divergence while replaying a prefix is retried: recognising a thread that waits in the
+            // kernel is timing based, and a heavily loaded machine can disturb a single execution; a
+            // harness that really is non-deterministic fails all three attempts)
+            let mut attempt = 0;
+            let r = loop {
+                match run_schedule(sc, &prefix, horizon) {
+                    Ok(r) => break r,
+                    Err(e) => {
+                        attempt += 1;
+                        if attempt >= 3 {
+                            eprintln!("MACHINERY FAILURE: {} schedule {:?}: {e}", sc.name(), prefix);
+                            std::process::exit(2);
+                        }
+                    }
                 }
             };
             // children: alternatives at decisions beyond the prefix
